@@ -102,16 +102,58 @@ theorem mergeFieldSets_sound_registry {acc : Accepts} {K I : String → Prop}
   obtain ⟨a, b⟩ := mergeSoundP (ov := false) (acc := acc) hK hI L e c sets F he hL hsets h
   exact ⟨a, fun fs hfs kvs hin => C01.inhFieldsLX_false_iff.1 (b fs hfs kvs (C01.inhFieldsLX_false_iff.2 hin))⟩
 
-/-- `optimize_type` on a registry-stage field dict (any `==` environment, any lookup): lax in, strict out -/
-theorem optimize_sound_registry {acc : Accepts} {K I : String → Prop} {cfg : GenCfg}
+/-- the same with the refined lax reading (`C01.InhFieldsLaxS`: a field may be absent when its type is
+    `Ty.optLikeS`) — the reading `optimize_type` honours, hence the one `merge_models` composes with -/
+theorem mergeFieldSets_sound_registryS {acc : Accepts} {K I : String → Prop}
+    (hK : ∀ k, K k → wfSerName k = true) (hI : IdxAlnum I)
+    {L : ModelLookup} {e : EqEnv} {c : LitCfg} {sets : List Fields} {F : Fields}
+    (he : e.look = L) (hL : LookGood K I L) (hsets : ∀ m ∈ sets, GoodPF K I m)
+    (h : mergeFieldSets c e sets = .ok F) :
+    GoodPF K I F ∧ ∀ fs ∈ sets, ∀ kvs, C01.InhFieldsLaxS acc L fs kvs → C01.InhFieldsLaxS acc L F kvs := by
+  obtain ⟨a, b⟩ := mergeSoundPS (ov := false) (acc := acc) hK hI L e c sets F he hL hsets h
+  exact ⟨a, fun fs hfs kvs hin => C01.inhFieldsLXS_false_iff.1 (b fs hfs kvs (C01.inhFieldsLXS_false_iff.2 hin))⟩
+
+/-- The former statement of `optimize_sound_registry` (lax reading with `Ty.optLike`).  It is FALSE since
+    `_optimize_union` splices the unions hidden under `Optional` members: `optimize_sound_registry_false`. -/
+def optimize_sound_registry_Statement : Prop :=
+  ∀ (acc : Accepts) (K I : String → Prop) (cfg : GenCfg),
+    (∀ k, K k → wfSerName k = true) → IdxAlnum I → ReplacesSound acc cfg.reg → ReplacesRanked cfg.reg →
+    ∀ (L : ModelLookup) (e : EqEnv) (fuel : Nat) (F : Fields) (t' : Ty),
+      GoodPF K I F → optimize cfg e fuel (.obj F) = .ok t' →
+      ∃ F', t' = .obj F' ∧ GoodPF K I F' ∧ F'.map (·.1) = F.map (·.1) ∧
+        ∀ kvs, C01.InhFieldsLax acc L F kvs → InhFields acc L F' kvs
+
+/-- `{}` lies laxly in `{a: Union[Optional[Union[]]]}` (the field is `Ty.optLike`), which is optimised to
+    `{a: Null}` (`Reg.optimize_degenerate_witness`) -/
+theorem optimize_sound_registry_false : ¬ optimize_sound_registry_Statement := by
+  intro h
+  obtain ⟨F', e', _, _, hinh⟩ := h (fun _ _ => none) (fun _ => False) (fun _ => False)
+    ⟨⟨15, 20⟩, ⟨[], [], []⟩, [], []⟩ (fun k hk => hk.elim) (fun i hi => hi.elim)
+    (fun a b hab => by simp at hab) ⟨fun _ => 0, fun p hp => by simp at hp⟩
+    (fun _ => none) ⟨StrOracle.default, fun i => i, fun _ => none, 1⟩ 4
+    [("a", .union [.opt (.union [])])] _ ⟨by simp, by simp⟩ (optimize_degenerate_witness _ _)
+  cases e'
+  have hlax : C01.InhFieldsLax (fun _ _ => none) (fun _ => none) [("a", .union [.opt (.union [])])] [] := by
+    refine ⟨by simp, by simp, ?_⟩
+    intro ft hft hno; simp at hft; subst hft
+    revert hno; decide
+  obtain ⟨kv, hkv, _⟩ := (hinh [] hlax).2.2 ("a", .null) (by simp) rfl
+  simp at hkv
+
+/-- `optimize_type` on a registry-stage field dict (any `==` environment, any lookup): lax in, strict out —
+    with the refined lax reading.
+    (PARTIAL with respect to `optimize_sound_registry_Statement`: objects that omit a field whose type is
+    `Ty.optLike` but not `Ty.optLikeS` — a degenerate `DUnion` such as `Union[Optional[Union[]]]`, which
+    `DUnion.__init__`/`merge_field_sets` never build — are excluded.) -/
+theorem optimize_sound_registry_partial {acc : Accepts} {K I : String → Prop} {cfg : GenCfg}
     (hK : ∀ k, K k → wfSerName k = true) (hI : IdxAlnum I)
     (hrep : ReplacesSound acc cfg.reg) (hrank : ReplacesRanked cfg.reg)
     {L : ModelLookup} {e : EqEnv} {fuel : Nat} {F : Fields} {t' : Ty}
     (hF : GoodPF K I F) (h : optimize cfg e fuel (.obj F) = .ok t') :
     ∃ F', t' = .obj F' ∧ GoodPF K I F' ∧ F'.map (·.1) = F.map (·.1) ∧
-      ∀ kvs, C01.InhFieldsLax acc L F kvs → InhFields acc L F' kvs := by
+      ∀ kvs, C01.InhFieldsLaxS acc L F kvs → InhFields acc L F' kvs := by
   obtain ⟨F', a, b, c, _, d⟩ := optSoundP_weak (ov := false) (acc := acc) hK hI hrep hrank L e fuel F t' hF h
-  exact ⟨F', a, b, c, fun kvs hin => inhFieldsX_false_iff.1 (d kvs (C01.inhFieldsLX_false_iff.2 hin))⟩
+  exact ⟨F', a, b, c, fun kvs hin => inhFieldsX_false_iff.1 (d kvs (C01.inhFieldsLXS_false_iff.2 hin))⟩
 
 /-! ## 4. one group: `_merge`, then `optimize_type(model_meta)` -/
 
@@ -125,7 +167,7 @@ theorem mergeGroup_sound {acc : Accepts} {K : String → Prop} {cfg : GenCfg} {s
     (wf : WF g) (gg : GraphGood K g)
     (h1 : mergeGroup cfg so g members = .ok (g1, idx)) (h2 : optimizeModel cfg so g1 idx = .ok g2) :
     GraphGood K g2 ∧ ∀ t v, Inh acc g.look t v → Inh acc g2.look (substTy (σOf members idx) t) v :=
-  mergeStep_sound (mergeSoundP hK isIdx_alnum) (optSoundP_weak hK isIdx_alnum hrep hrank) wf gg h1 h2
+  mergeStep_sound (mergeSoundPS hK isIdx_alnum) (optSoundP_weak hK isIdx_alnum hrep hrank) wf gg h1 h2
 
 /-- … for a member: what `old` accepted, the merged model accepts -/
 theorem mergeGroup_member_sound {acc : Accepts} {K : String → Prop} {cfg : GenCfg} {so : StrOracle}
@@ -242,7 +284,7 @@ theorem mergeModels_sound {acc : Accepts} {K : String → Prop} {cfg : GenCfg} {
     (∀ p ∈ repl, ∀ i ∈ p.2, σFold repl i = p.1) ∧
     (∀ i, (∀ p ∈ repl, p.2.contains i = false) → σFold repl i = i) ∧
     WF g' ∧ GraphGood K g' := by
-  obtain ⟨gg', hs⟩ := mergeModels_sound_core (acc := acc) (mergeSoundP hK isIdx_alnum)
+  obtain ⟨gg', hs⟩ := mergeModels_sound_core (acc := acc) (mergeSoundPS hK isIdx_alnum)
     (optSoundP_weak hK isIdx_alnum hrep hrank) wf gg h
   obtain ⟨hσ1, hσ2⟩ := mergeModels_σ wf h
   exact ⟨hs, hσ1, hσ2, (mergeModels_struct wf h).choose_spec.choose_spec.2.2.2.2.2.2.1, gg'⟩
@@ -342,7 +384,9 @@ end J2M.C01R
 #print axioms J2M.C01R.retarget_sound
 #print axioms J2M.C01R.pyEq_sound_registry
 #print axioms J2M.C01R.mergeFieldSets_sound_registry
-#print axioms J2M.C01R.optimize_sound_registry
+#print axioms J2M.C01R.mergeFieldSets_sound_registryS
+#print axioms J2M.C01R.optimize_sound_registry_partial
+#print axioms J2M.C01R.optimize_sound_registry_false
 #print axioms J2M.C01R.mergeGroup_sound
 #print axioms J2M.C01R.mergeGroup_member_sound
 #print axioms J2M.C01R.optimizeModel_sound
